@@ -183,7 +183,7 @@ impl Scenario for Flow {
     }
 
     fn execute(&self, p: &Program, target: &str, st: &mut Stats) -> Option<Violation> {
-        let slots = (p.cfg.get_u("slots") as usize).clamp(1, 8);
+        let slots = (p.cfg.get_u("slots") as usize).clamp(1, 256);
         let maxpdu = (p.cfg.get_u("maxpdu") as usize).clamp(1, 70_000);
         let nbuf = (p.cfg.get_u("nbuf") as usize).min(slots + 2);
         let mode = p.cfg.get_u("mode");
@@ -197,8 +197,11 @@ impl Scenario for Flow {
         let mut led = TxLedger::new();
         let mut rx = RxNode::new(slots, maxpdu, table.clone(), keep_crc);
         let mut walker = if mode == 1 { Some(RxNode::new(slots, maxpdu, table.clone(), false)) } else { None };
+        let mut accepted_bufs = 0usize;
         for _ in 0..nbuf {
-            let _ = rx.provision(maxpdu);
+            if let Ok(true) = rx.provision(maxpdu) {
+                accepted_bufs += 1;
+            }
             if let Some(w) = walker.as_mut() {
                 let _ = w.provision(maxpdu);
             }
@@ -206,7 +209,7 @@ impl Scenario for Flow {
         let mut walker_ok = true;
         let mut flights: Vec<Flight> = vec![];
         let mut frame: Vec<u8> = vec![];
-        let mut frame_pkts: Vec<(usize, usize, RxObs, bool, bool)> = vec![]; // .4 = label memories were re-synchronised after this packet // (offset, len, isolated observation, produced_by_sender_uncorrupted)
+        let mut frame_pkts: Vec<(usize, usize, RxObs, bool, bool, bool)> = vec![]; // .5 = walker resets before this packet // .4 = label memories were re-synchronised after this packet // (offset, len, isolated observation, produced_by_sender_uncorrupted)
         let mut stream_no = 0u32;
         let mut merge = H64::new();
         let mut merge_seq: Vec<u32> = vec![];
@@ -227,10 +230,12 @@ impl Scenario for Flow {
         // deliver one packet to the isolated receiver (exact slice) and queue it for the walker
         // returns false if the run must stop
         macro_rules! deliver {
-            ($pkt:expr, $fl:expr, $clean:expr) => {{
+            ($pkt:expr, $fl:expr, $clean:expr, $before:expr, $after:expr) => {{
                 let pkt: &[u8] = $pkt;
                 let fl: Option<usize> = $fl;
                 let clean: bool = $clean;
+                let resync_before: bool = $before;
+                let force_resync_after: bool = $after;
                 ex.st.inc("packets");
                 // C19 peek monitor
                 let hdr = wire::header(pkt);
@@ -433,7 +438,12 @@ impl Scenario for Flow {
                 }
                 // the receiver clears its label memory on every error (by design): a rejected packet ends
                 // label re-use for this frame. Model: the sender restarts with a full label.
-                if obs.class == "err" {
+                // Exception: a continuation packet (intermediate / end) of an unknown or aliasing frag id carries no
+                // label and is a per-packet rejection: C07 requires that such strays leave the other traffic of the
+                // frame deliverable, label re-use included, so no re-synchronisation is granted there.
+                let continuation_unknown_id = matches!(hdr, Some((Kind::Inter, _, gl)) if gl >= 2) || matches!(hdr, Some((Kind::End, _, gl)) if gl >= 5);
+                let resync_after = force_resync_after || (obs.class == "err" && !(continuation_unknown_id && obs.err == "Mem.UndefinedId"));
+                if resync_after {
                     enc.reset_last_label();
                     led.reset();
                     rx.reset();
@@ -441,7 +451,7 @@ impl Scenario for Flow {
                 }
                 // queue for the walker
                 if walker.is_some() {
-                    frame_pkts.push((frame.len(), pkt.len(), obs.clone(), clean && fl.is_some(), obs.class == "err"));
+                    frame_pkts.push((frame.len(), pkt.len(), obs.clone(), clean && fl.is_some(), resync_after, resync_before));
                     frame.extend_from_slice(pkt);
                 }
                 absorb(&mut rx, r);
@@ -625,10 +635,12 @@ impl Scenario for Flow {
                         tainted = true;
                     }
                     {
+                        // buffers the application made available minus those legitimately in use; buffers the
+                        // library lost are *not* subtracted: a leak must not excuse a later non-delivery
                         let g = rx.led.borrow();
-                        let free = g.n_inside() - g.n_attached();
+                        let free_expected = (accepted_bufs as i64) - (g.n_attached() as i64) - (rx.app.len() as i64);
                         let slot_has = parsed.kind == Kind::First && g.attached_ids().iter().any(|i| *i as usize % slots == fid as usize % slots);
-                        if free == 0 && !slot_has {
+                        if free_expected <= 0 && !slot_has {
                             tainted = true;
                         }
                     }
@@ -703,7 +715,7 @@ impl Scenario for Flow {
                         switches += 1;
                     }
                     last_stream = Some(stream_no);
-                    deliver!(&pkt, Some(fi), clean);
+                    deliver!(&pkt, Some(fi), clean, false, false);
                     if ctx.is_none() {
                         flights.remove(fi);
                     }
@@ -806,7 +818,7 @@ impl Scenario for Flow {
                     if let TxRes::Frag(_, c2) = &res {
                         flights[fi].ctx = *c2;
                     }
-                    deliver!(&pkt, Some(fi), clean);
+                    deliver!(&pkt, Some(fi), clean, false, false);
                     if done {
                         flights.remove(fi);
                     }
@@ -848,19 +860,15 @@ impl Scenario for Flow {
                     }
                     // start/complete strays move the label memories of the receiver only: the sender's
                     // substituted re-use packets would now resolve differently -> taint label expectations
-                    // any stray may change (start/complete) or clear (malformed) the receiver's label memory
-                    {
-                        // keep sender and receiver label memories aligned: reset both
+                    // A start/complete stray carries its own label (the receiver's memory legitimately changes) and a
+                    // malformed continuation stray legitimately clears it: the sender, which knows nothing about strays,
+                    // is re-synchronised around those (equivalent to a frame boundary). A well-formed continuation stray
+                    // of an unknown or aliasing id must leave label re-use intact (C07): no re-synchronisation.
+                    let changes_labels = matches!(kind, Kind::Complete | Kind::First) || (kind == Kind::Inter && len == 0);
+                    if changes_labels {
                         enc.reset_last_label();
                         led.reset();
                         rx.reset();
-                        if let Some(w) = walker.as_mut() {
-                            // the walker resets at the same point of the stream: realised as a frame boundary
-                            let _ = w;
-                        }
-                    }
-                    if walker.is_some() {
-                        walker_ok = false;
                     }
                     ex.st.inc("fault.stray");
                     ex.st.inc(match kind {
@@ -870,8 +878,7 @@ impl Scenario for Flow {
                         Kind::End => "fault.stray_end",
                     });
                     merge.u(1000 + kind as u64);
-                    deliver!(&pkt, None, false);
-                    rx.reset();
+                    deliver!(&pkt, None, false, changes_labels, changes_labels);
                 }
                 "frame" => {
                     ex.st.inc("frames");
@@ -886,7 +893,10 @@ impl Scenario for Flow {
                             let mut ix = 0usize;
                             walked_max = walked_max.max(frame_pkts.len());
                             while ix < frame_pkts.len() {
-                                let (o, l, iso, clean, resync) = frame_pkts[ix].clone();
+                                let (o, l, iso, clean, resync, resync_before) = frame_pkts[ix].clone();
+                                if resync_before {
+                                    w.reset();
+                                }
                                 if off != o {
                                     break;
                                 }
@@ -922,6 +932,11 @@ impl Scenario for Flow {
                                 let frame_level = obs.class == "err" && !per_packet_rejection(&obs.err);
                                 let same = obs.class == iso.class && obs.err == iso.err && obs.label == iso.label && obs.ptype == iso.ptype && obs.pdu_len == iso.pdu_len && obs.pdu_hash == iso.pdu_hash && obs.exts == iso.exts;
                                 if !same && clean {
+                                    if ex.target == "C07" {
+                                        if ex.report(Violation::new("C07", "C07.frame_walk_loses_packets", site.clone(), format!("a sender-produced packet is treated differently when walked in a frame that also carries strays: alone {} {} ; in frame at offset {}: {} {}", iso.class, iso.err, off, obs.class, obs.err))) {
+                                            stop!();
+                                        }
+                                    }
                                     if ex.report(Violation::new("C10", "C10.outcome_depends_on_following_bytes", site.clone(), format!("alone: {} {} ; in frame at offset {}: {} {}", iso.class, iso.err, off, obs.class, obs.err))) {
                                         stop!();
                                     }
@@ -935,6 +950,12 @@ impl Scenario for Flow {
                                     ex.st.inc("walker_desync_after_corrupt_packet");
                                     absorb(w, r);
                                     break;
+                                }
+                                if obs.consumed != l && ex.target == "C07" && (obs.class != "err" || per_packet_rejection(&obs.err)) && obs.consumed > l {
+                                    // a stray (or any packet) rejected per packet must not swallow the packets that follow it
+                                    if ex.report(Violation::new("C07", "C07.frame_walk_loses_packets", site.clone(), format!("packet of {} bytes at offset {} ({} {}) consumed {} bytes of the frame: the packets of other reassemblies behind it are lost", l, off, obs.class, obs.err, obs.consumed))) {
+                                        stop!();
+                                    }
                                 }
                                 if obs.consumed != l {
                                     // a corrupted length field changes the packet's own length: compare with the isolated run
@@ -1242,7 +1263,14 @@ pub mod gen {
                     gen_c02(rng, target)
                 }
             }
-            "C02" | "C11" | "C18" => gen_c02(rng, target),
+            "C11" => {
+                if rng.chance(1, 4) {
+                    gen_c13(rng)
+                } else {
+                    gen_c02(rng, target)
+                }
+            }
+            "C02" | "C18" => gen_c02(rng, target),
             "C04" | "C15" => gen_c04(rng, target == "C15"),
             "C07" => gen_c07(rng, idx),
             "C10" | "C19" => gen_c10(rng),
@@ -1270,6 +1298,14 @@ pub mod gen {
             match rng.below(12) {
                 0 => ops.push(Op::new("frame")),
                 1 => ops.push(Op::new(if rng.chance(1, 2) { "enable" } else { "disable" })),
+                2 => {
+                    // a refused call (encap or encap_ext: buffer too small / PDU too long) right before valid traffic
+                    let lab = if rng.chance(2, 3) { favourite } else { label(rng, false) };
+                    let e = [opt_ext(rng)];
+                    let with_ext = rng.chance(1, 2);
+                    let (len, buf) = if rng.chance(1, 2) { (rng.usize_in(0, 50), rng.usize_in(0, 8)) } else { (65_530 + rng.usize_in(0, 20), rng.usize_in(100, 5000)) };
+                    ops.push(submit(len, rng.next(), ptype(rng), &lab, rng.below(256) as u8, buf, if with_ext { &e } else { &[] }));
+                }
                 _ => {
                     let lab = if rng.chance(1, 2) { favourite } else { label(rng, false) };
                     let l = lab.len();
@@ -1348,9 +1384,10 @@ pub mod gen {
                 ops.push(Op::new("frame"));
             }
         }
-        let slots = rng.usize_in(1, 4);
+        // one slot per frag id (256) is a natural configuration: sampled rarely (258 buffers to provision)
+        let slots = if rng.chance(1, 60) { 256 } else { rng.usize_in(1, 4) };
         let maxpdu = maxlen + rng.usize_in(0, 2);
-        Program { scenario: "flow", cfg: cfg(slots, maxpdu, slots + 2, 0, &ExtTable::default()), ops }
+        Program { scenario: "flow", cfg: cfg(slots, maxpdu, (slots + 2).min(8), 0, &ExtTable::default()), ops }
     }
 
     fn gen_c04(rng: &mut Rng, long_runs: bool) -> Program {
@@ -1554,7 +1591,17 @@ pub mod gen {
             left[s] -= 1;
             step += 1;
         }
-        Program { scenario: "flow", cfg: cfg(slots, maxlen + 50, slots + 2, 0, &ExtTable::default()), ops }
+        // a third of the runs also walk the packets (strays included) laid back to back in frames
+        let mode = if rng.chance(1, 3) { 1 } else { 0 };
+        if mode == 1 {
+            let nfr = rng.usize_in(0, 2);
+            for _ in 0..nfr {
+                let at = rng.usize_in(0, ops.len());
+                ops.insert(at, Op::new("frame").u("pad", rng.range(0, 6)));
+            }
+            ops.push(Op::new("frame").u("pad", rng.range(0, 40)));
+        }
+        Program { scenario: "flow", cfg: cfg(slots, maxlen + 50, slots + 2, mode, &ExtTable::default()), ops }
     }
 
     fn gen_c10(rng: &mut Rng) -> Program {
@@ -1662,6 +1709,7 @@ pub mod gen {
             let ptx = match rng.below(16) {
                 0 => rng.below(0x100) as u16,             // < 0x100 with whatever the last extension is
                 1 => rng.range(0x100, 0x5FF) as u16,     // forbidden range
+                2 => exts.last().map(|e| e.0).unwrap_or(pt), // equal to the last extension's id (legal only for a final mandatory one)
                 _ => pt,
             };
             ops.push(submit(len, rng.next(), ptx, &lab, fid, buf, &exts));
